@@ -269,7 +269,7 @@ fn log_main() {
       }
     }));
   }
-  let dispatch = pipe.dispatch.clone();
+  let dispatch = pipe.subscriber.clone();
   let logger: Arc<dyn log::Log> = Arc::from(std::mem::replace(&mut pipe.log, Box::new(NopLog)));
   let mut emitters = vec![];
   for (t, evs) in sc.emitters.iter().enumerate() {
@@ -656,6 +656,21 @@ impl Family for LogFamily {
   fn finish(&self, sc: &LogSc, out: RunOut) -> Evaluated {
     CUR.with(|c| *c.borrow_mut() = None);
     let h = H.with(|h| std::mem::take(&mut *h.borrow_mut()));
+    if std::env::var("VERIF_DUMP_TAGGED").is_ok() {
+      let tag = sc.knobs.seed;
+      let mut lines = vec![format!("steps={} switches={} failure={:?}", out.stats.steps, out.stats.switches, out.failure)];
+      for e in &h.emits {
+        lines.push(format!("emit {e:?}"));
+      }
+      for (a, (g, d)) in &h.custom {
+        lines.push(format!("custom a{a}: disconnected={d} {:?}", g.iter().map(|x| (x.id, x.at)).collect::<Vec<_>>()));
+      }
+      for (a, (b, f)) in &h.sinks {
+        lines.push(format!("sink a{a}: {} bytes, {} flushed", b.len(), f));
+      }
+      lines.push(format!("stop [{}..{}]", h.stop_begin, h.stop_end));
+      println!("{}", lines.iter().map(|l| format!("TAG{tag} {l}")).collect::<Vec<_>>().join("\n"));
+    }
     if std::env::var("VERIF_DUMP").is_ok() {
       println!("{}", sc.yaml());
       for e in &h.emits {
@@ -770,7 +785,7 @@ impl Family for LogFamily {
       "real": ["fibre_logging configuration parsing + processing (serde_yaml), build_filter_for_appender, PerAppenderFilter, EventProcessor::process_event, DispatchLayer (on a real tracing_subscriber Registry), LogHandler (log bridge), encoders (json_lines, pattern), run_byte_appender_writer threads, InitResult::shutdown / Drop",
                "fibre::mpsc bounded channels between emitters and appenders (simulated primitives underneath)"],
       "stub": ["init_from_file's own appender loop and the installation of the global subscriber / logger: mirrored by hook H7 (init::verif::build), which sorts appenders by name and takes writers from the harness",
-               "console / file writers -> in-memory sinks (optionally slow)", "tracing's thread-local dispatcher selection -> Dispatch::enabled + Dispatch::event on the scoped subscriber",
+               "console / file writers -> in-memory sinks (optionally slow)", "tracing's dispatcher (thread-local selection and the process-wide dispatcher registry) -> Subscriber::enabled + Subscriber::event called directly on the scoped subscriber",
                "log::log! macro -> Log::log on the bridge with the process-wide max level held at Trace", "std::thread / Instant / sleep in init.rs and lib.rs -> fibre_verif_rt"],
     })
   }
